@@ -390,11 +390,18 @@ def prepare(cfg):
     if cfg.get('mutant'):
         _mutate(cfg['mutant'])
     prog = cfg['prog']
-    text = tprog.serialise(prog)
+    spelling = None
+    if cfg.get('spelling') == 'data':        # statements written as data-tal-* attributes (option on)
+        spelling = {'form': 'data'}
+    text = tprog.serialise(prog, spelling=spelling)
     if cfg.get('crlf'):
         text = text.replace('\n', '\r\n')      # Windows line endings (normalised by the engine outside XML mode)
     STATE['text'] = text
     opts = dict(cfg.get('options', {}))
+    if spelling is not None:
+        opts['enable_data_attributes'] = True
+    if cfg.get('extra_builtins'):
+        opts['extra_builtins'] = dict(cfg['extra_builtins'])
     if 'implicit_i18n_attributes' in opts:
         opts['implicit_i18n_attributes'] = set(opts['implicit_i18n_attributes'])
     if cfg.get('handler'):
@@ -535,9 +542,9 @@ def run_ref(bindings, **kw):
     opts = dict(CFG.get('options') or {})
     if CFG.get('target_language') is not None:
         opts['target_language'] = CFG['target_language']
-    ref = refsem.Ref(DEFAULT_MARKER, STATE['codes'],
-                     helpers={'rec': rrec, 'show': show, 'L': make_L(outs, vals, log),
-                              '__translate__': make_T(log)}, log=log,
+    helpers = dict(CFG.get('extra_builtins') or {})       # names the template class offers as builtins
+    helpers.update({'rec': rrec, 'show': show, 'L': make_L(outs, vals, log), '__translate__': make_T(log)})
+    ref = refsem.Ref(DEFAULT_MARKER, STATE['codes'], helpers=helpers, log=log,
                      options=opts, **kw)
     scope = refsem.RScope(bindings)
     out = []
